@@ -85,8 +85,10 @@ plan("C13", "other",
      "'every target is an instruction start' rests on WF and is checked against the target set computed from dis on corpora (E3).",
      assumptions=[WF])
 plan("C14", "other",
-     "CodeData.__iter__ / all_code_data on every arrangement of operand kinds over bounded shapes and nesting depth 3 (E2); agreement with a recursive walk of co_consts, including dead inner "
-     "definitions, and equality with the stand-alone decoding of each nested code object on corpora (E3); no hidden state between decodes (E1 static, soft).")
+     "CodeData.__iter__ by the generic-element rule - a generic operand of every kind at a generic position is yielded iff it is a Constant holding a CodeData, for instructions and for additional "
+     "arguments - and all_code_data by structural induction (self first, then the subtree of every child), both E1; every arrangement over bounded shapes and depth 3 (E2).  That the operands and "
+     "additional arguments together hold *every* constant of the code object is found_index/additional_args (C09).  Agreement with a recursive walk of co_consts - each nested object once, also "
+     "when several instructions load it or none does - and equality with the stand-alone decoding of each nested code object on corpora (E3).")
 plan("C15", "other",
      "Static reads-frame: the closure of the JSON codec and normalize references no interpreter-dependent name and imports only the data classes (E1, soft: a sufficient condition); documents "
      "written under each of 3.7-3.10 are loaded, re-dumped and normalized under each of 3.7-3.13 and compared canonically (E3).",
